@@ -595,7 +595,13 @@ fn lx_part(rep: &mut Report, thorough: bool) {
         for front in ["socks5", "http-connect"] {
             for &n in &sizes {
                 let mut hs = vec![];
-                for conn in 0..2u8 {
+                for conn in 0..3u8 {
+                    // connection 2: the application half-closes its sending side once everything is written and keeps
+                    // reading (request/response protocols do that); what the target still sends must arrive in full
+                    let half_close = conn == 2;
+                    if half_close && n < 8192 {
+                        continue;
+                    }
                     let proxy = if front == "socks5" { lx.socks.unwrap() } else { lx.http.unwrap() };
                     let taddr = target.addr;
                     hs.push(tokio::spawn(async move {
@@ -630,6 +636,9 @@ fn lx_part(rep: &mut Report, thorough: bool) {
                         let writer = async move {
                             let _ = wr.write_all(&d2).await;
                             let _ = wr.flush().await;
+                            if half_close {
+                                let _ = wr.shutdown().await;
+                            }
                         };
                         let reader = async {
                             let mut got = Vec::with_capacity(n);
@@ -653,7 +662,7 @@ fn lx_part(rep: &mut Report, thorough: bool) {
                 }
                 for (c, h) in hs.into_iter().enumerate() {
                     let r = h.await.unwrap_or_else(|e| Some(format!("task: {e}")));
-                    out.push((format!("{front}, {n} bytes each way, connection {c} of 2 concurrent"), r));
+                    out.push((format!("{front}, {n} bytes each way, connection {c} of 3 concurrent{}", if c == 2 { " (application half-closes after writing)" } else { "" }), r));
                 }
             }
         }
